@@ -431,8 +431,8 @@ def chain_rule(ctx, rule="ROLE-chain"):
     single = multi = None
     for asg, leaf in spine_cases(r):
         for c, v in asg.items():
-            if c == ("cmp", "==", nv("n_chains"), C(1)):
-                if v:
+            if c in (("cmp", "==", nv("n_chains"), C(1)), ("cmp", "!=", nv("n_chains"), C(1))):
+                if v == (c[1] == "=="):
                     single = leaf
                 else:
                     multi = leaf
@@ -538,17 +538,26 @@ def resample_index_rule(ctx, rule="ROLE-one-index"):
     ck = Checker(ctx, ev, lin, rule, "smc.resample_vectorized_trace", func_loc(ctx, dotted))
     TRC, LW, NS, METH = ("param", "trace"), ("param", "log_weights"), ("param", "n_samples"), ("param", "method")
     seen = {}
-    for asg, leaf in spine_cases(s.ret):
+    for asg, leaf in all_cases(s.ret):
         which = None
         for c, v in asg.items():
-            if c[0] == "cmp" and c[1] == "==" and c[2] == METH and c[3][0] == "const":
-                if v:
-                    which = c[3][1]
+            cc, vv = (("cmp", "==", c[2], c[3]), not v) if (c[0] == "cmp" and c[1] == "!=") else (c, v)
+            if cc[0] == "cmp" and cc[1] == "==" and cc[2] == METH and cc[3][0] == "const":
+                if vv and which is None:
+                    which = cc[3][1]
+                elif vv:
+                    which = "conflict"
             else:
                 raise AnalysisError(f"smc.resample_vectorized_trace: unrecognised condition {short(c, ev)}")
+        if which == "conflict":
+            continue
+        raises = leaf[0] == "raise" or any(x[0] == "raise" for x in subterms(leaf))
         if which is None:
-            if leaf[0] != "raise":
+            if not raises:
                 ck.fail("unknown method raises", f"found {short(leaf, ev)}")
+            continue
+        if raises:
+            ck.fail(f"[{which}] method supported", "raises")
             continue
         tm = find_treemap(leaf)
         if tm is None or ev.treemaps[tm[1]]["trees"] != (TRC,):
@@ -900,72 +909,113 @@ def systematic_rule(ctx, rule="ALG-systematic"):
 
 
 def rejuvenation_smc_rule(ctx, rule="ROLE-rejuvenation_smc"):
-    kind, node, mod, owner = ctx.p.get_function(SMC + "rejuvenation_smc")
-    ctx.fn(SMC + "rejuvenation_smc")
+    """Decided on the symbolic summary: particles = J(R(init(model, args, N, obs[0]))); each scan step is
+    J(R(extend(carry, model, carry.traces.get_retval(), obs_t, proposal))) carried and emitted, where
+    R(P) = lax.cond(P.ess() < N // 2, resample, identity, P) and J(P) = n_rejuvenation_moves × rejuvenate(·, kernel) if a kernel is given."""
+    ev = mk_ev(ctx, depth=4)
+    dotted = SMC + "rejuvenation_smc"
+    s = summarize(ctx, ev, dotted)
+    loc = func_loc(ctx, dotted)
     construct = "smc.rejuvenation_smc"
-    failed = False
+    P_ = lambda n: ("param", n)
+    MODEL, TP, KER, OBS, ARGS0, NP, RA, NM = (P_(n) for n in ("model", "transition_proposal", "mcmc_kernel", "observations", "initial_model_args",
+                                                            "n_particles", "return_all_particles", "n_rejuvenation_moves"))
+    problems = []
 
-    def bad(key, what, n=node):
-        nonlocal failed
-        failed = True
-        ctx.bad(rule, construct, key, what, ctx.loc(mod, n))
+    def is_R(t, inner_pred):
+        """t == lax.cond(inner.ess() < N // 2, resample, identity, inner); returns inner or None."""
+        if not (is_call(t, name="jax.lax.cond") and len(t[2]) == 4):
+            return None
+        pred, f_t, f_f, op = t[2]
+        want_pred = ("cmp", "<", ("call", ("attr", op, "effective_sample_size"), (), ()), ("binop", "//", ("attr", NP, "value"), C(2)))
+        alt_pred = ("cmp", "<", call(N(SMC + "effective_sample_size"), ("attr", op, "log_weights")), want_pred[3])
+        if pred not in (want_pred, alt_pred):
+            problems.append(f"resampling is triggered by ess < N // 2 of the particles being resampled (found {short(pred, ev, 160)})")
+        X = ("param", "p__")
+        for f, want, what in ((f_t, None, "resample"), (f_f, X, "identity")):
+            if f[0] != "closure":
+                if what == "resample" and f == N(SMC + "resample"):
+                    continue
+                problems.append(f"cond {what} branch not recognised ({short(f, ev, 80)})")
+                continue
+            b = ev.apply_closure(f, (X,), ())
+            if what == "identity":
+                if b != X:
+                    problems.append(f"the no-resampling branch must return the particles unchanged (found {short(b, ev, 120)})")
+            else:
+                if not (is_call(b, name=SMC + "resample") and b[2][:1] == (X,)):
+                    problems.append(f"the resampling branch must call resample on the same particles (found {short(b, ev, 120)})")
+        return op
 
-    src = {type(n).__name__ for n in ast.walk(node)}
-    # resampling inside lax.cond on ess < N // 2 with identity else-branch (2 sites)
-    conds = [c for c in ast.walk(node) if isinstance(c, ast.Call) and ast.unparse(c.func) == "jax.lax.cond"]
-    if len(conds) < 2:
-        bad("ESS-triggered resampling at init and at every step", f"{len(conds)} lax.cond sites")
-    for c in conds:
-        a = [ast.unparse(x) for x in c.args]
-        if len(a) != 4 or a[0].replace(" ", "") != "ess<n_particles.value//2" or a[1] != "lambda p: resample(p)" or a[2] != "lambda p: p" or a[3] != "particles":
-            bad("cond(ess < N // 2, resample, identity, particles)", f"found cond({', '.join(a)})", c)
-    # smc_step: extend consumes the particles' own retvals; carry = post-rejuvenation particles
-    steps = [f for f in ast.walk(node) if isinstance(f, ast.FunctionDef) and f.name == "smc_step"]
-    if len(steps) != 1:
-        raise AnalysisError(f"{construct}: smc_step not found")
-    st = steps[0]
-    body_src = ast.unparse(st)
-    ext = [c for c in ast.walk(st) if isinstance(c, ast.Call) and ast.unparse(c.func) == "extend"]
-    if len(ext) != 1:
-        bad("one extend per observation", f"{len(ext)} extend calls", st)
+    def strip_J(t):
+        """t == (final carry of a rejuvenation scan started from X) if kernel is not None else X; returns X."""
+        if t[0] == "ifexp":
+            c = t[1]
+            pol = None
+            if c[0] == "cmp" and c[2] == KER and is_const(c[3], None):
+                pol = c[1] == "is not"
+            if pol is None:
+                problems.append(f"rejuvenation is conditional on a kernel being given (found {short(c, ev, 80)})")
+                return t
+            with_k, without = (t[2], t[3]) if pol else (t[3], t[2])
+            if with_k[0] != "scan_final":
+                problems.append(f"rejuvenation moves run in a scan (found {short(with_k, ev, 120)})")
+                return without
+            rec = ev.scans[with_k[1]]
+            if rec["init"] != without:
+                problems.append("rejuvenation starts from the (possibly resampled) particles of this step")
+            carry = ("scan_carry", with_k[1], None)
+            if rec["carry_out"] != call(N(SMC + "rejuvenate"), carry, ("attr", KER, "value")):
+                problems.append(f"each move = rejuvenate(particles, kernel) (found {short(rec['carry_out'], ev, 160)})")
+            if rec["xs"] != call(N("jax.numpy.arange"), ("attr", NM, "value")) and ev.kwget(rec["kwargs"], "length") != ("attr", NM, "value"):
+                problems.append(f"n_rejuvenation_moves moves (found scan over {short(rec['xs'], ev, 80)})")
+            return without
+        return t
+
+    # the outer scan over the remaining observations
+    outer = [(sid, rec) for sid, rec in ev.scans.items() if any(x == OBS for x in subterms(rec["xs"]))]
+    if len(outer) != 1:
+        raise AnalysisError(f"{construct}: scan over the observations not found")
+    sid, rec = outer[0]
+    xs = rec["xs"]
+    ok_xs = xs[0] == "treemap" and xs[2] == ("idx", ("leaf", xs[1], OBS), ("slice", C(1), NONE, NONE))
+    if not ok_xs:
+        problems.append(f"the scan runs over observations[1:] (found {short(xs, ev, 120)})")
+    # initial particles
+    first = None
+    p0 = is_R(strip_J(rec["init"]), None)
+    if p0 is None:
+        problems.append(f"initial particles are resampled when degenerate (found {short(rec['init'], ev, 160)})")
     else:
-        a = [ast.unparse(x) for x in ext[0].args]
-        kw = {k.arg: ast.unparse(k.value) for k in ext[0].keywords}
-        prov = {ast.unparse(x.targets[0]): ast.unparse(x.value) for x in ast.walk(st) if isinstance(x, ast.Assign) and len(x.targets) == 1}
-        if a[:2] != ["particles", "model"] or prov.get(a[2] if len(a) > 2 else "") != "particles.traces.get_retval()" or (a[3] if len(a) > 3 else "") != st.args.args[1].arg \
-                or kw.get("extension_proposal") != "transition_proposal":
-            bad("extend(particles, model, particles' own retvals, this observation, proposal)", f"found extend({', '.join(a)}, {kw})", ext[0])
-    rets = [r for r in ast.walk(st) if isinstance(r, ast.Return) and r.value is not None and isinstance(r.value, ast.Tuple)]
-    outer = [r for r in rets if ast.unparse(r.value) == "(particles, particles)"]
-    if not outer:
-        bad("smc_step returns (post-move particles, post-move particles)", f"found {[ast.unparse(r.value) for r in rets]}", st)
-    # order inside smc_step: extend < cond < rejuvenation scan < return
-    order = []
-    for x in st.body:
-        s_ = ast.unparse(x)
-        if "extend(" in s_:
-            order.append("extend")
-        elif "jax.lax.cond(" in s_:
-            order.append("resample")
-        elif "rejuvenate(" in s_:
-            order.append("rejuvenate")
-    if order[:2] != ["extend", "resample"] or (len(order) > 2 and order[2] != "rejuvenate"):
-        bad("extend, then ESS-triggered resample, then rejuvenation", f"order {order}", st)
-    scans = [c for c in ast.walk(node) if isinstance(c, ast.Call) and ast.unparse(c.func) == "jax.lax.scan" and c.args and ast.unparse(c.args[0]) == "smc_step"]
-    if len(scans) != 1 or [ast.unparse(x) for x in scans[0].args[1:]] != ["particles", "remaining_obs"]:
-        bad("scan(smc_step, initial particles, remaining observations)", f"found {[ast.unparse(s) for s in scans]}")
-    asg = {ast.unparse(x.targets[0]): ast.unparse(x.value) for x in node.body if isinstance(x, ast.Assign) and len(x.targets) == 1}
-    if asg.get("first_obs") != "jtu.tree_map(lambda x: x[0], observations)" or asg.get("remaining_obs") != "jtu.tree_map(lambda x: x[1:], observations)":
-        bad("first observation initialises, the rest are scanned", f"first_obs={asg.get('first_obs')}, remaining_obs={asg.get('remaining_obs')}")
-    inits = [c for c in ast.walk(node) if isinstance(c, ast.Call) and ast.unparse(c.func) == "init"]
-    if len(inits) != 1 or [ast.unparse(x) for x in inits[0].args] != ["model", "initial_model_args", "n_particles", "first_obs"]:
-        bad("init(model, initial args, N, first observation)", f"found {[ast.unparse(c) for c in inits]}")
-    rj = [c for c in ast.walk(node) if isinstance(c, ast.Call) and ast.unparse(c.func) == "rejuvenate"]
-    for c in rj:
-        if [ast.unparse(x) for x in c.args] != ["particles", "mcmc_kernel.value"]:
-            bad("rejuvenate(particles, kernel)", f"found {ast.unparse(c)}", c)
-    if not failed:
-        ctx.ok(rule, construct, f"{len(conds)} ESS-triggered resampling sites; extend←retvals; carry = post-move particles")
+        ok0 = is_call(p0, name=SMC + "init") and len(p0[2]) >= 4 and p0[2][0] == MODEL and p0[2][1] == ARGS0 and p0[2][2] == NP
+        fo = p0[2][3] if ok0 else None
+        ok0 = ok0 and fo[0] == "treemap" and fo[2] == ("idx", ("leaf", fo[1], OBS), C(0))
+        if not ok0:
+            problems.append(f"init(model, initial args, N, observations[0]) (found {short(p0, ev, 200)})")
+    # step
+    carry = ("scan_carry", sid, None)
+    if rec["carry_out"] != rec["ys"]:
+        problems.append("each step emits the same post-move particles it carries")
+    e = is_R(strip_J(rec["carry_out"]), None)
+    if e is None:
+        problems.append(f"each step resamples when degenerate (found {short(rec['carry_out'], ev, 160)})")
+    else:
+        obs_t = ("elem", sid, xs)
+        want = ("call", N(SMC + "extend"), (carry, MODEL, ("call", ("attr", ("attr", carry, "traces"), "get_retval"), (), ()), obs_t), (("extension_proposal", TP),))
+        alt = ("call", N(SMC + "extend"), want[2] + (TP,), ())
+        if e not in (want, alt):
+            problems.append(f"extend(particles, model, the particles' own retvals, this observation, proposal) (found {short(e, ev, 260)})")
+    # result
+    for asg, leaf in all_cases(s.ret):
+        ra = [v for c, v in asg.items() if c == ("attr", RA, "value")]
+        if ra and not ra[0]:
+            if leaf != ("scan_final", sid):
+                problems.append(f"returns the final particles (found {short(leaf, ev, 120)})")
+    if problems:
+        for p in dict.fromkeys(problems):
+            ctx.bad(rule, construct, p[:160], p, loc)
+    else:
+        ctx.ok(rule, construct, "init → [resample if ess < N//2] → [rejuvenate]; each step: extend from own retvals → resample → rejuvenate; carry = emitted particles")
 
 
 # ====================================================================== VI (C17)
@@ -1041,53 +1091,76 @@ def optimize_rule(ctx, rule="ALG-vi-ascent"):
 def families_rule(ctx, rule="ROLE-vi-family"):
     ev = mk_ev(ctx)
     lin = mk_lin(ev)
+    MV = {"reparam": "genjax.adev.multivariate_normal_reparam", "reinforce": "genjax.adev.multivariate_normal_reinforce"}
     for fam in ("mean_field_normal_family", "full_covariance_normal_family"):
         dotted = VI + fam
         s = summarize(ctx, ev, dotted)
         ck = Checker(ctx, ev, lin, rule, f"vi.{fam}", func_loc(ctx, dotted))
         GE = ("param", "gradient_estimator")
-        n = 0
-        for asg, leaf in all_cases(s.ret):
+        P = ("param", "params")
+        ND = ("param", "n_dims")
+
+        def est_of(asg):
             est = None
             for c, v in asg.items():
-                if c[0] == "cmp" and c[1] == "==" and c[2] == GE and v:
-                    est = c[3][1] if est is None else "conflict"
-            if est in (None, "conflict"):
-                if est is None and leaf[0] != "raise":
-                    ck.fail("unknown estimator raises", f"found {short(leaf, ev, 120)}")
+                cc, vv = (("cmp", "==", c[2], c[3]), not v) if (c[0] == "cmp" and c[1] == "!=") else (c, v)
+                if cc[0] == "cmp" and cc[1] == "==" and cc[2] == GE and cc[3][0] == "const":
+                    if vv:
+                        est = cc[3][1] if est is None else "conflict"
+                else:
+                    raise AnalysisError(f"vi.{fam}: unrecognised condition {short(c, ev)}")
+            return est
+
+        seen = set()
+        raised_for_unknown = False
+        for asg, leaf in all_cases(s.ret):
+            if leaf[0] == "raise":
+                if est_of(asg) is None:
+                    raised_for_unknown = True
                 continue
             if not (is_call(leaf, name=CORE + "gen") and leaf[2] and leaf[2][0][0] == "closure"):
                 ck.fail("returns a @gen variational family", f"found {short(leaf, ev, 200)}")
                 continue
-            P = ("param", "params")
-            body = ev.apply_closure(leaf[2][0], (("param", "constraint"), P), ())
-            mv = {"reparam": "genjax.adev.multivariate_normal_reparam", "reinforce": "genjax.adev.multivariate_normal_reinforce"}.get(est)
-            n += 1
-            if not (body[0] == "binop" and body[1] == "@" and is_call(body[2]) and body[3] == C("x")):
-                ck.fail("family samples one addressed multivariate normal", f"found {short(body, ev, 200)}")
-                continue
-            d = body[2]
-            # follow the local alias mvnormal_fn -> the resolved estimator
-            fnm = d[1]
-            if fnm[0] == "ifexp":
-                from .util import resolve_deep
-                fnm = resolve_deep(fnm, asg)
-            ck.eq(f"[{est}] estimator primitive", fnm, N(mv))
-            if len(d[2]) != 2:
-                ck.fail("mvnormal(mean, covariance)", f"found {short(d, ev)}")
-                continue
-            mean, cov = d[2]
-            ND = ("param", "n_dims")
-            if fam.startswith("mean_field"):
-                ck.eq("mean = params[:n_dims]", mean, ("idx", P, ("slice", NONE, ND, NONE)))
-                std = call(N("jax.numpy.exp"), ("idx", P, ("slice", ND, NONE, NONE)))
-                ck.eq("covariance = diag(exp(log_std)²)", cov, call(N("jax.numpy.diag"), ("binop", "**", std, C(2))))
-            else:
-                ck.eq("mean = params['mean']", mean, ("idx", P, C("mean")))
-                ch = ("idx", P, C("chol_cov"))
-                ck.eq("covariance = L Lᵀ", cov, ("binop", "@", ch, ("attr", ch, "T")))
-        if n < 2:
-            ck.fail("both estimators analysed", f"{n}")
+            from .util import resolve_deep
+            body = resolve_deep(ev.apply_closure(leaf[2][0], (("param", "constraint"), P), ()), asg)
+            for asg2, b in all_cases(body):
+                est = est_of({**asg, **asg2})
+                if est == "conflict":
+                    continue
+                raises = b[0] == "raise" or any(x[0] == "raise" for x in subterms(b))
+                if est is None:
+                    if raises:
+                        raised_for_unknown = True
+                    else:
+                        ck.fail("unknown estimator raises", f"found {short(b, ev, 120)}")
+                    continue
+                if est not in MV:
+                    continue
+                if raises:
+                    ck.fail(f"[{est}] estimator supported", "raises")
+                    continue
+                seen.add(est)
+                if not (b[0] == "binop" and b[1] == "@" and is_call(b[2]) and b[3] == C("x")):
+                    ck.fail("family samples one addressed multivariate normal", f"found {short(b, ev, 200)}")
+                    continue
+                d = b[2]
+                ck.eq(f"[{est}] estimator primitive", d[1], N(MV[est]))
+                if len(d[2]) != 2:
+                    ck.fail("mvnormal(mean, covariance)", f"found {short(d, ev)}")
+                    continue
+                mean, cov = d[2]
+                if fam.startswith("mean_field"):
+                    ck.eq("mean = params[:n_dims]", mean, ("idx", P, ("slice", NONE, ND, NONE)))
+                    std = call(N("jax.numpy.exp"), ("idx", P, ("slice", ND, NONE, NONE)))
+                    ck.eq("covariance = diag(exp(log_std)²)", cov, call(N("jax.numpy.diag"), ("binop", "**", std, C(2))))
+                else:
+                    ck.eq("mean = params['mean']", mean, ("idx", P, C("mean")))
+                    ch = ("idx", P, C("chol_cov"))
+                    ck.eq("covariance = L Lᵀ", cov, ("binop", "@", ch, ("attr", ch, "T")))
+        if seen != {"reparam", "reinforce"}:
+            ck.fail("both estimators analysed", f"{sorted(seen)}")
+        if not raised_for_unknown:
+            ck.fail("unknown estimator raises", "no raising case")
         ck.done()
 
 
